@@ -5,18 +5,18 @@ BUILT = sys.argv[1].split(',') if len(sys.argv) > 1 else []
 MC = 'explicit-state model checking of the implementation: depth-bounded exhaustive DFS over real handlers on store branches, exact whole-store SHA-256 state matching, reference-model / invariant oracles in every state'
 T = {
  'C01': ('model_checking', 'Every interleaving (to the depth bound) of right/duplicate/skipping votes with competing claim variants by 3+1 oracles, executeClaim calls, membership changes and slashing blocks is executed against the real keeper; a monitor checks nonce order, exactly-once observation and execution in every state.', MC, '§4 C01'),
- 'C02': ('model_checking', 'Every vote order x stake-change interleaving for several stake vectors (incl. truncation witnesses) is executed; each observation is re-tallied from raw records in exact arithmetic; the signer/bridger binding is checked end-to-end through real FinalizeBlock for every claim type.', MC + ' + exhaustive (claim type x wrapper signer) enumeration through real FinalizeBlock', '§4 C02'),
- 'C03': ('model_checking', 'All claims within a per-field value product are bucketed by ClaimHash and every bucket must agree on all execution-relevant fields; for each claim type every single-field-different pair is voted by two oracles of a 2-of-2 quorum in the real keeper and must not be tallied together.', 'bounded-exhaustive enumeration of claim pairs (injectivity of ClaimHash over a field-value product) + explicit-state exploration of the two-voter schedules in the real keeper', '§4 C03'),
+ 'C02': ('model_checking', 'Every vote order x stake-change interleaving for several stake vectors (incl. truncation witnesses) is executed; each observation is re-tallied from raw records in exact arithmetic; the signer/bridger binding is checked end-to-end through real FinalizeBlock for every claim type; a restart of the module from its exported genesis (real ExportGenesis / InitGenesis) is one of the operations.', MC + ' + exhaustive (claim type x wrapper signer) enumeration through real FinalizeBlock', '§4 C02'),
+ 'C03': ('model_checking', 'All claims within a per-field value product are bucketed by ClaimHash and every bucket must agree on all execution-relevant fields; for each claim type every single-field-different pair is voted by two oracles of a 2-of-2 quorum in the real keeper and must not be tallied together; every order of votes by four oracles for two competing claims per nonce is explored with a monitor that ties each recorded vote to the claim it named.', 'bounded-exhaustive enumeration of claim pairs (injectivity of ClaimHash over a field-value product) + explicit-state model checking (exhaustive DFS with exact state matching) of the competing-claims vote schedules in the real keeper', '§4 C03'),
  'C04': ('model_checking', 'All bridge operation sequences to the bound over FX / module-owned / externally-owned tokens on two chains run against the real app in lock-step with a reference ledger; conservation, per-account deltas and withdrawability are checked on every transition.', MC, '§4 C04'),
  'C05': ('model_checking', 'All pool/batch/bridge-call life-cycle sequences to the bound, record-by-record comparison of pool, batches and outgoing calls with a reference book after every step.', MC, '§4 C05'),
  'C06': ('model_checking', 'Joint exploration of fxcore and a Go model of the external bridge contract admission rules; no record may be both executed externally and refunded on fxcore; timeouts only in event handling at observed height >= timeout.', MC + ' with a co-simulated external-chain model', '§4 C06'),
  'C07': ('model_checking', 'Every sequence of obligation-creating operations up to the bound through real handlers and real End/BeginBlockers; from every distinct state a look-ahead probe ages the state past the signed window and the governance periods.', MC + ', look-ahead probes', '§4 C07'),
  'C08': ('model_checking', 'All conversion / registration / toggle sequences and all <=3-action contract programs mixing token calls with converting precompile calls; pair-book invariants in every state.', MC + ' + exhaustive program enumeration', '§4 C08'),
- 'C09': ('fault_enumeration', 'For every state-changing precompile method and call-tree shape, the transaction is re-run at every distinct gas threshold of its successful trace and with every failure placement; full store dump compared with the designated outcome.', 'exhaustive fault-point enumeration (every gas threshold of the traced execution x call-tree shapes) with full-store differential oracle', '§4 C09'),
+ 'C09': ('fault_enumeration', 'For every state-changing precompile method and call-tree shape, the transaction is re-run at every distinct gas threshold of its successful trace and with every failure placement (including targets that fail or abort after their native action has written, inside frames that catch the failure); full store dump compared with the designated outcome.', 'exhaustive fault-point enumeration (every gas threshold of the traced execution x call-tree shapes) with full-store differential oracle', '§4 C09'),
  'C10': ('model_checking', 'All (caller x call kind x method x governance switch) combinations are executed against a victim portfolio; third-party state must be unchanged.', 'exhaustive enumeration of caller/call-kind/method/switch configurations on the real EVM + precompiles', '§4 C10'),
  'C11': ('model_checking', 'All sequences of precompile staking operations (incl. self-transfer) among 3 accounts and 2 validators with reward blocks and slashing; share conservation and SDK invariants in every state, exit look-ahead.', MC + ', crisis-invariant and exit probes', '§4 C11'),
  'C12': ('model_checking', 'Checkpoints of all objects in a shape x boundary-value product are compared byte-for-byte with an independent ABI encoder written from the Solidity source; all candidate confirmations (key x digest x encoding x bridger x repeat) are submitted to the real keeper.', 'bounded-exhaustive enumeration against an independent reference encoder + exhaustive candidate-confirmation enumeration in the real keeper', '§4 C12'),
- 'C13': ('model_checking', 'All oracle life-cycle sequences to the bound (approve, bond, add-delegate, redelegate, edit-bridger, confirm, blocks incl. unbonding time, removal, unbond) with registry/stake/slashing oracles in every state.', MC, '§4 C13'),
+ 'C13': ('model_checking', 'All oracle life-cycle sequences to the bound (approve, bond, add-delegate, redelegate, edit-bridger, confirm, blocks incl. unbonding time, removal, unbond, restart from the exported genesis) with registry/stake/slashing oracles in every state.', MC, '§4 C13'),
  'C14': ('model_checking', 'All source portfolios in the shape product x governance involvement x target kinds are migrated in the real app; differential and twin-run oracles.', 'exhaustive enumeration of portfolio/gov/target configurations with differential (twin-run) oracle', '§4 C14'),
  'C15': ('model_checking', 'All submit/deposit/vote/time/custom-param sequences to the bound against a reference proposal book; deposit conservation in every state.', MC, '§4 C15'),
  'C16': ('exploration', 'Every authority-carrying message type found on the message router x payload variants x non-governance authorities; rejected and full-store digest unchanged.', 'exhaustive enumeration over the message router (reflection) with whole-store digest oracle', '§4 C16'),
